@@ -24,9 +24,61 @@ import (
 
 var byteSliceType = reflect.TypeFor[[]byte]()
 
-// maxShowDepth is the maximum nesting depth of a value shown in JavaScript
-// and JSON contexts. A cyclic value exceeds it.
-const maxShowDepth = 1000
+// startDetectingCyclesAfter is the number of nested pointers, maps and slices
+// of a value shown in JavaScript and JSON contexts after which the references
+// on the path to the current value are recorded to detect a cyclic value.
+const startDetectingCyclesAfter = 1000
+
+// showPath is the path of pointers, maps and slices from a value shown in
+// JavaScript or JSON context to the nested value currently shown.
+type showPath struct {
+	level int
+	refs  map[showRef]struct{}
+}
+
+// showRef identifies a pointer, a map or a slice on a showPath.
+type showRef struct {
+	typ reflect.Type
+	ptr uintptr
+	len int
+}
+
+// enter adds the pointer, map or slice v to the path. It reports whether v
+// was already on the path, that is whether the shown value is cyclic. If not,
+// the caller must call leave with the returned reference once it has shown
+// the elements of v.
+func (p *showPath) enter(v reflect.Value) (ref showRef, cyclic bool) {
+	p.level++
+	if p.level <= startDetectingCyclesAfter {
+		return ref, false
+	}
+	ref = showRef{typ: v.Type(), ptr: v.Pointer()}
+	if v.Kind() == reflect.Slice {
+		ref.len = v.Len()
+	}
+	if _, ok := p.refs[ref]; ok {
+		p.level--
+		return ref, true
+	}
+	if p.refs == nil {
+		p.refs = map[showRef]struct{}{}
+	}
+	p.refs[ref] = struct{}{}
+	return ref, false
+}
+
+// leave removes from the path the reference returned by enter.
+func (p *showPath) leave(ref showRef) {
+	if p.level > startDetectingCyclesAfter {
+		delete(p.refs, ref)
+	}
+	p.level--
+}
+
+// errCyclicValue returns the error for the cyclic value v.
+func errCyclicValue(env *env, v reflect.Value) error {
+	return fmt.Errorf("cannot show value of type %s: it is cyclic", env.TypeOf(v))
+}
 
 // renderer is used by te Show and Text instructions to render template files.
 type renderer struct {
@@ -475,16 +527,13 @@ func showInCSSString(env *env, out io.Writer, value any) error {
 
 // showInJS shows value in JavaScript context.
 func showInJS(env *env, out io.Writer, value any) error {
-	return showInJSDepth(env, out, value, 0)
+	return showInJSDepth(env, out, value, &showPath{})
 }
 
-// showInJSDepth is showInJS for a value nested depth levels into the shown value.
-// It returns an error if the value is cyclic or too deeply nested.
-func showInJSDepth(env *env, out io.Writer, value any, depth int) error {
-
-	if depth > maxShowDepth {
-		return fmt.Errorf("cannot show value of type %s: it is cyclic or nested too deeply", env.TypeOf(reflect.ValueOf(value)))
-	}
+// showInJSDepth is showInJS for a value reached through the given path of
+// pointers, maps and slices from the shown value. It returns an error if the
+// value is cyclic.
+func showInJSDepth(env *env, out io.Writer, value any, path *showPath) error {
 
 	w := newStringWriter(out)
 
@@ -550,6 +599,13 @@ func showInJSDepth(env *env, out io.Writer, value any, depth int) error {
 			s = "[]"
 			break
 		}
+		if v.Kind() == reflect.Slice {
+			ref, cyclic := path.enter(v)
+			if cyclic {
+				return errCyclicValue(env, v)
+			}
+			defer path.leave(ref)
+		}
 		_, err := w.WriteString("[")
 		for i := 0; i < v.Len(); i++ {
 			if err != nil {
@@ -559,7 +615,7 @@ func showInJSDepth(env *env, out io.Writer, value any, depth int) error {
 				_, err = w.WriteString(",")
 			}
 			if err == nil {
-				err = showInJSDepth(env, out, v.Index(i).Interface(), depth+1)
+				err = showInJSDepth(env, out, v.Index(i).Interface(), path)
 			}
 		}
 		if err == nil {
@@ -571,7 +627,12 @@ func showInJSDepth(env *env, out io.Writer, value any, depth int) error {
 			s = "null"
 			break
 		}
-		return showInJSDepth(env, out, v.Elem().Interface(), depth+1)
+		ref, cyclic := path.enter(v)
+		if cyclic {
+			return errCyclicValue(env, v)
+		}
+		defer path.leave(ref)
+		return showInJSDepth(env, out, v.Elem().Interface(), path)
 	case reflect.Struct:
 		t := v.Type()
 		n := t.NumField()
@@ -610,7 +671,7 @@ func showInJSDepth(env *env, out io.Writer, value any, depth int) error {
 					_, err = w.WriteString(`":`)
 				}
 				if err == nil {
-					err = showInJSDepth(env, w, value.Interface(), depth+1)
+					err = showInJSDepth(env, w, value.Interface(), path)
 				}
 				first = false
 			}
@@ -624,6 +685,11 @@ func showInJSDepth(env *env, out io.Writer, value any, depth int) error {
 			s = "null"
 			break
 		}
+		ref, cyclic := path.enter(v)
+		if cyclic {
+			return errCyclicValue(env, v)
+		}
+		defer path.leave(ref)
 		type keyPair struct {
 			key string
 			val any
@@ -666,7 +732,7 @@ func showInJSDepth(env *env, out io.Writer, value any, depth int) error {
 				_, err = w.WriteString(`":`)
 			}
 			if err == nil {
-				err = showInJSDepth(env, out, keyPair.val, depth+1)
+				err = showInJSDepth(env, out, keyPair.val, path)
 			}
 		}
 		if err == nil {
@@ -684,16 +750,13 @@ func showInJSDepth(env *env, out io.Writer, value any, depth int) error {
 
 // showInJSON shows value in JSON context.
 func showInJSON(env *env, out io.Writer, value any) error {
-	return showInJSONDepth(env, out, value, 0)
+	return showInJSONDepth(env, out, value, &showPath{})
 }
 
-// showInJSONDepth is showInJSON for a value nested depth levels into the shown value.
-// It returns an error if the value is cyclic or too deeply nested.
-func showInJSONDepth(env *env, out io.Writer, value any, depth int) error {
-
-	if depth > maxShowDepth {
-		return fmt.Errorf("cannot show value of type %s: it is cyclic or nested too deeply", env.TypeOf(reflect.ValueOf(value)))
-	}
+// showInJSONDepth is showInJSON for a value reached through the given path of
+// pointers, maps and slices from the shown value. It returns an error if the
+// value is cyclic.
+func showInJSONDepth(env *env, out io.Writer, value any, path *showPath) error {
 
 	w := newStringWriter(out)
 
@@ -766,6 +829,13 @@ func showInJSONDepth(env *env, out io.Writer, value any, depth int) error {
 			s = "[]"
 			break
 		}
+		if v.Kind() == reflect.Slice {
+			ref, cyclic := path.enter(v)
+			if cyclic {
+				return errCyclicValue(env, v)
+			}
+			defer path.leave(ref)
+		}
 		_, err := w.WriteString("[")
 		for i := 0; i < v.Len(); i++ {
 			if err != nil {
@@ -775,7 +845,7 @@ func showInJSONDepth(env *env, out io.Writer, value any, depth int) error {
 				_, err = w.WriteString(",")
 			}
 			if err == nil {
-				err = showInJSONDepth(env, out, v.Index(i).Interface(), depth+1)
+				err = showInJSONDepth(env, out, v.Index(i).Interface(), path)
 			}
 		}
 		if err == nil {
@@ -787,7 +857,12 @@ func showInJSONDepth(env *env, out io.Writer, value any, depth int) error {
 			s = "null"
 			break
 		}
-		return showInJSONDepth(env, out, v.Elem().Interface(), depth+1)
+		ref, cyclic := path.enter(v)
+		if cyclic {
+			return errCyclicValue(env, v)
+		}
+		defer path.leave(ref)
+		return showInJSONDepth(env, out, v.Elem().Interface(), path)
 	case reflect.Struct:
 		t := v.Type()
 		n := t.NumField()
@@ -826,7 +901,7 @@ func showInJSONDepth(env *env, out io.Writer, value any, depth int) error {
 					_, err = w.WriteString(`":`)
 				}
 				if err == nil {
-					err = showInJSONDepth(env, w, value.Interface(), depth+1)
+					err = showInJSONDepth(env, w, value.Interface(), path)
 				}
 				first = false
 			}
@@ -840,6 +915,11 @@ func showInJSONDepth(env *env, out io.Writer, value any, depth int) error {
 			s = "null"
 			break
 		}
+		ref, cyclic := path.enter(v)
+		if cyclic {
+			return errCyclicValue(env, v)
+		}
+		defer path.leave(ref)
 		type keyPair struct {
 			key string
 			val any
@@ -882,7 +962,7 @@ func showInJSONDepth(env *env, out io.Writer, value any, depth int) error {
 				_, err = w.WriteString(`":`)
 			}
 			if err == nil {
-				err = showInJSONDepth(env, out, keyPair.val, depth+1)
+				err = showInJSONDepth(env, out, keyPair.val, path)
 			}
 		}
 		if err == nil {
